@@ -154,6 +154,14 @@ def cases(tier, seed, shard, nshards):
                 continue
             yield {"k": "join", "d": dl[k % 6], "base": "plain", "item": ["plain", "aliased", "subquery"][k % 3], "l": lsrc, "r": rsrc, "samecol": True,
                    "form": form, "extra": [], "pre": None}
+    # every join type finished with on(): the criterion is checked whatever the type (a CROSS join given a criterion renders it)
+    for jt in ("cross-on", "cross-join-on"):
+        for lsrc, rsrc in itertools.product(["base", "item", "foreign", "undeclared-cte", "base-near"], repeat=2):
+            for base in ("plain", "aliased", "subquery"):
+                k += 1
+                if k % nshards == shard:
+                    yield {"k": "join", "d": dl[k % 6], "base": base, "item": "plain", "l": lsrc, "r": rsrc, "samecol": bool(k % 2), "form": "plain",
+                           "extra": [], "pre": None, "how": jt}
     # the source the criterion wrongly names is of every shape, named or not (the exception must come out whatever it takes to
     # describe the missing source)
     for fshape in SRC_SHAPES + ["subquery-unnamed", "setop-unnamed"]:
@@ -179,7 +187,7 @@ def cases(tier, seed, shard, nshards):
         yield {"k": "join", "d": rnd.choice(dl), "base": rnd.choice(SRC_SHAPES), "item": rnd.choice(SRC_SHAPES),
                "l": rnd.choice(srcs), "r": rnd.choice(srcs), "samecol": rnd.random() < 0.5, "form": rnd.choice(OPERAND_FORMS),
                "extra": [[rnd.choice(srcs), rnd.choice(srcs), rnd.choice(["and", "or"])] for _ in range(rnd.randint(0, 2))],
-               "how": rnd.choice(["on", "on", "on", "using", "on_field", "cross"]), "foreign_shape": rnd.choice(SRC_SHAPES + ["subquery-unnamed", "setop-unnamed"]),
+               "how": rnd.choice(["on", "on", "on", "using", "on_field", "cross", "cross-on", "cross-join-on"]), "foreign_shape": rnd.choice(SRC_SHAPES + ["subquery-unnamed", "setop-unnamed"]),
                "pre": rnd.choice([None, None, "siblings", "render", "copy"])}
     # set operations
     for d in dl:
@@ -416,7 +424,7 @@ def run_join(case, mon):
         crit = (crit & c2) if op == "and" else (crit | c2)
     # reference verdict
     missing = [t for t in refs if t is not None and not any(same(t, s, reg) for s in available)]
-    expect_invalid = bool(missing) and how == "on"
+    expect_invalid = bool(missing) and how in ("on", "cross-on", "cross-join-on")
     # a rejected call is no call: statement, joined item and every table keep rendering, comparing and hashing as before
     mutable = pre is None and mon.evaluations % 5 == 0
     if mutable:
@@ -432,8 +440,8 @@ def run_join(case, mon):
     before_marks = marks()
     j = None
     try:
-        j = q.join(item)
-        if how == "on":
+        j = q.join(item, reg["JoinType"].cross) if how == "cross-on" else (q.cross_join(item) if how == "cross-join-on" else q.join(item))
+        if how in ("on", "cross-on", "cross-join-on"):
             q2 = j.on(crit)
         elif how == "using":
             q2 = j.using("id")
@@ -468,7 +476,8 @@ def run_join(case, mon):
             good = reg["BasicCriterion"](reg["Equality"].eq, reg["Field"]("id", table=item), reg["Field"]("id", table=available[0]))
             try:
                 retry = str(j.on(good))
-                fresh = str(q.join(item).on(good))
+                jf = q.join(item, reg["JoinType"].cross) if how == "cross-on" else (q.cross_join(item) if how == "cross-join-on" else q.join(item))
+                fresh = str(jf.on(good))
                 mon.count("retried_joiners")
                 if retry != fresh:
                     mon.violation("join:rejected-call-leaves-a-mark:Joiner", "after a rejected on() the same pending join gives %r with a valid criterion, a fresh one %r" % (
